@@ -20,6 +20,7 @@ from .. import fx_optimizer as fx
 
 CLAUSES = ('unknown_is_error', 'known_is_accepted', 'views_readable', 'fit_names', 'fit_values',
            'fit_boundaries', 'fit_priors', 'derived_names', 'values', 'other_parameters_untouched')
+FULL = ('compile_params', 'update_model', 'write_back')     # calls after which the whole set-up is compared
 NEED = ('SetPrior', 'EnableDerived', 'DisableDerived', 'Compile', 'WriteBack', 'Unknown', 'UpdateCall')
 
 
@@ -46,7 +47,7 @@ def replay_behaviour(ctx, hist, source, store=True):
         psp = [f['psp'] for f in prev['fit']]
         raised = real.apply(ev, psp=psp)
         got = real.project(raised)
-        bad, detail = fx.compare(exp, got)
+        bad, detail = fx.compare(exp, got, full=ev['op'] in FULL)
         cls = history_class(hist, k)
         if bad is None:
             ctx.verdict(clause_for(ev, 'ok'), True, cls=cls)
